@@ -669,4 +669,3 @@ Proof.
   - rewrite Hadv. reflexivity.
 Qed.
 
-Print Assumptions matcher_refines_spec.
